@@ -339,43 +339,57 @@ impl SecondaryStorage {
         Ok(())
     }
 
-    pub(super) async fn drop_table_inner(&self, table_id: TableRefId) -> StorageResult<()> {
+    /// Drops the tables of one statement with one manifest record: after a crash all of them
+    /// are gone or none.
+    pub(super) async fn drop_tables_inner(&self, table_ids: &[TableRefId]) -> StorageResult<()> {
         let _ddl = self.ddl_lock.lock().await;
 
-        // Keep compaction (and deletes) of this table out while its RowSets are dropped,
+        // nothing is applied unless every table exists (and is named once)
+        for (i, table_id) in table_ids.iter().enumerate() {
+            if !self.tables.read().contains_key(table_id) || table_ids[..i].contains(table_id) {
+                return Err(TracedStorageError::not_found("table", table_id.table_id));
+            }
+        }
+
+        // Keep compaction (and deletes) of these tables out while their RowSets are dropped,
         // otherwise both would remove the same RowSets.
-        let _guard = self.txn_mgr.lock_for_deletion(table_id.table_id).await;
+        let mut _guards = vec![];
+        for table_id in table_ids {
+            _guards.push(self.txn_mgr.lock_for_deletion(table_id.table_id).await);
+        }
 
         let mut changeset = vec![];
 
-        let entry = DropTableEntry { table_id };
+        for &table_id in table_ids {
+            let entry = DropTableEntry { table_id };
 
-        // contrary to create table, we first modify the catalog
-        self.apply_drop_table(&entry)?;
+            // contrary to create table, we first modify the catalog
+            self.apply_drop_table(&entry)?;
 
-        #[cfg(risinglight_verif)]
-        crate::verif::gate("ddl.drop.applied").await;
-        changeset.push(EpochOp::DropTable(entry));
+            #[cfg(risinglight_verif)]
+            crate::verif::gate("ddl.drop.applied").await;
+            changeset.push(EpochOp::DropTable(entry));
 
-        let pin_version = self.version.pin();
+            let pin_version = self.version.pin();
 
-        if let Some(rowsets) = pin_version.snapshot.get_rowsets_of(table_id.table_id) {
-            for rowset_id in rowsets {
-                changeset.push(EpochOp::DeleteRowSet(DeleteRowsetEntry {
-                    table_id,
-                    rowset_id: *rowset_id,
-                }));
+            if let Some(rowsets) = pin_version.snapshot.get_rowsets_of(table_id.table_id) {
+                for rowset_id in rowsets {
+                    changeset.push(EpochOp::DeleteRowSet(DeleteRowsetEntry {
+                        table_id,
+                        rowset_id: *rowset_id,
+                    }));
 
-                if let Some(dvs) = pin_version
-                    .snapshot
-                    .get_dvs_of(table_id.table_id, *rowset_id)
-                {
-                    for dv_id in dvs {
-                        changeset.push(EpochOp::DeleteDV(DeleteDVEntry {
-                            table_id,
-                            dv_id: *dv_id,
-                            rowset_id: *rowset_id,
-                        }));
+                    if let Some(dvs) = pin_version
+                        .snapshot
+                        .get_dvs_of(table_id.table_id, *rowset_id)
+                    {
+                        for dv_id in dvs {
+                            changeset.push(EpochOp::DeleteDV(DeleteDVEntry {
+                                table_id,
+                                dv_id: *dv_id,
+                                rowset_id: *rowset_id,
+                            }));
+                        }
                     }
                 }
             }
